@@ -10,7 +10,7 @@ Definition keep_ct (ct : ctx_table) (m : mask) (name : str) : bool := keep (t_ar
 Definition proj_ev0 (ct : ctx_table) (m : mask) (e : ev) : list ev :=
   match e with
   | EAttr name _ _ => if keep_ct ct m name then [e] else []
-  | EDeferred slot srcs => match filter (keep_ct ct m) srcs with [] => [] | srcs' => [EDeferred slot srcs'] end
+  | EDeferred slot srcs => match filter (fun x => keep_ct ct m (fst x)) srcs with [] => [] | srcs' => [EDeferred slot srcs'] end
   | _ => [e]
   end.
 
@@ -56,11 +56,7 @@ Definition proj_member (T : reader_tables) (v : visitor) (e : ev) : list ev :=
 Definition project (T : reader_tables) (v : visitor) (t : option (list ev)) : option (list ev) :=
   if v_accept_class v then option_map (flat_map (proj_member T v)) t else None.
 
-(* the visitor that wants everything and declines nothing *)
-Definition v_full (T : reader_tables) : visitor :=
-  mkVisitor true (t_interests (rt_class T))
-    (fun _ => Some (t_interests (rt_field T))) (fun _ => Some (t_interests (rt_method T)))
-    (fun _ => Some (t_interests (rt_code T))) (fun _ => Some (t_interests (rt_rc T))).
+(* [v_full]: the visitor that wants everything and declines nothing (Struct.v) *)
 
 (* ---------- facts about the tables ---------- *)
 Lemma governing_law flags : forall (n : nat) arms seen, (length arms <= n)%nat ->
@@ -136,7 +132,7 @@ Qed.
 Record attr_like (ct : ctx_table) (m : mask) (pe : ev -> list ev) : Prop := mkAL {
   al_attr : forall name r b, pe (EAttr name r b) = if keep_ct ct m name then [EAttr name r b] else [];
   al_flags : forall d s, pe (EFlags d s) = [EFlags d s];
-  al_def : forall slot srcs, pe (EDeferred slot srcs) = match filter (keep_ct ct m) srcs with [] => [] | s' => [EDeferred slot s'] end;
+  al_def : forall slot srcs, pe (EDeferred slot srcs) = match filter (fun x => keep_ct ct m (fst x)) srcs with [] => [] | s' => [EDeferred slot s'] end;
   al_small : small pe;
 }.
 
@@ -157,7 +153,7 @@ Proof.
   constructor; try reflexivity.
   intros e. destruct e; cbn [proj_ev0]; try (right; eexists; reflexivity).
   - destruct (keep_ct ct m name); [right; eexists; reflexivity|left; reflexivity].
-  - destruct (filter (keep_ct ct m) sources); [left; reflexivity|right; eexists; reflexivity].
+  - destruct (filter (fun x => keep_ct ct m (fst x)) sources); [left; reflexivity|right; eexists; reflexivity].
 Qed.
 
 Lemma proj_ev_like T v ct m kc : attr_like ct m (proj_ev T v ct m kc).
@@ -165,7 +161,7 @@ Proof.
   constructor; try reflexivity.
   intros e. destruct e; cbn [proj_ev proj_ev0]; try (right; eexists; reflexivity).
   - destruct (keep_ct ct m name); [right; eexists; reflexivity|left; reflexivity].
-  - destruct (filter (keep_ct ct m) sources); [left; reflexivity|right; eexists; reflexivity].
+  - destruct (filter (fun x => keep_ct ct m (fst x)) sources); [left; reflexivity|right; eexists; reflexivity].
   - destruct (keep_ct ct m attr); [right; eexists; reflexivity|left; reflexivity].
   - destruct (keep_ct ct m attr); [right; eexists; reflexivity|left; reflexivity].
   - destruct (keep_ct ct m attr); [right; eexists; reflexivity|left; reflexivity].
@@ -213,7 +209,7 @@ Qed.
 
 (* what is visited after the loop *)
 Lemma slot_sources_R ct m pe st_m st_f slot : R ct m pe st_m st_f ->
-  slot_sources st_m slot = filter (keep_ct ct m) (slot_sources st_f slot).
+  slot_sources st_m slot = filter (fun x => keep_ct ct m (fst x)) (slot_sources st_f slot).
 Proof.
   intros [_ _ _ Hsl]. unfold slot_sources. rewrite Hsl.
   rewrite <- filter_rev', filter_comm, filter_map_comm. reflexivity.
